@@ -241,20 +241,10 @@ func fnPV() int { return 3 }
 func fnPF() int { return 4 }
 func fnIn() int { return 5 }
 
-// ownPath: the engine model does not speak about this schema's nil path — Record's pointer variants (after
-// Optional/Nilable/Nullish) fail every Parse in a type-local conversion (known finding record:pointer-variant-conversion).
-// Such cases are judged by the specification only. (Discriminated union and lazy had private nil paths that deviated;
-// since a69d756 / bc2d4fc they follow the engine's order and are compared with the engine model like every other type.)
-func ownPath(e *entry, h []string) bool {
-	if kindOf(e) == "record" {
-		for _, op := range h {
-			if op == "Optional" || op == "Nilable" || op == "Nullish" {
-				return true
-			}
-		}
-	}
-	return false
-}
+// ownPath: does the schema have a nil path the engine model does not speak about (such cases would be judged by the
+// specification only)? None any more: discriminated union and lazy follow the engine's order since a69d756 / bc2d4fc, and
+// Record's pointer variants convert between T and *T since f5847cc — every row is compared with the engine model.
+func ownPath(e *entry, h []string) bool { return false }
 
 var opNames = []string{"Optional", "Nilable", "Nullish", "NonOptional", "Default:v", "Default:i", "DefaultFunc:v", "DefaultFunc:i",
 	"Prefault:v", "Prefault:i", "PrefaultFunc:v", "PrefaultFunc:i", "Overwrite", "Refine"}
